@@ -18,13 +18,16 @@ RULE = ("cases: histories over 2 clusters, 7 addresses, 3 backend ids, 3 sticky 
         "reset, connection failures (back-off windows of seeded length) / successes / forced down+waiting states, "
         "clock advances, inc/dec/close of connections incl. unmatched decrements and Closing backends, request "
         "counts, policy changes over the six policies (Maglev with prime tables 2..31 and the production size), "
-        "interleaved with keyed / unkeyed selections, sticky look-ups and full state dumps. Non-trivial and "
+        "interleaved with keyed / unkeyed selections, sticky look-ups, the connect entry points (try_connect, "
+        "backend_from_cluster_id, backend_from_sticky_session, with one address the kernel refuses synchronously) "
+        "and full state dumps. Non-trivial and "
         "distinct: >=2 selections with >=2 different candidate lists, one of them reached through a health / "
         "back-off / closing / backup change (a non-default eligibility state), distinct by op text.")
 ASSUMPTIONS = [
     "the Maglev permutation hashes of an address and the HRW score of (key,address,weight) are data: read from the real code (cfg(sozu_verif) accessors) by `c12 --oracle`, re-verified by the driver on every case, quantified over in the theorems",
     "Random / PowerOfTwo draws are not modelled: the model returns the set the draw is taken from; the implementation's picks (16 resp. 64 draws) must lie in it (Random) / be exactly it (PowerOfTwo's two candidates)",
-    "time: one model second = 100000 s of `wait` forced through the retry hook; a clock advance shrinks every wait; Instant::now() jitter (< 1 model second per case) cannot change an outcome",
+    "time: one model second = 100000 real seconds; fail()/succeed()/can_try()/is_down() are the real ones; the random window length fail() draws is checked against its range and replaced (hook) by the case's; a clock advance ages every policy's last_try (hook); Instant::now() jitter (<< 1 model second per case) cannot change an outcome",
+    "connect outcomes are environment data: a non-blocking tcp connect to a loopback address answers Ok (EINPROGRESS), to 255.255.255.255 fails synchronously (ENETUNREACH in tcp_v4_connect); the driver re-checks this on every connect",
     "LoadMetric::ConnectionTime (PeakEWMA) and the contents of the 65537-slot production Maglev table are not modelled (the same rebuild code is compared slot by slot at table sizes 2..31)",
 ]
 TRUSTED = ["translator props/c12.py:translate compares DEFAULT_TABLE_SIZE, DEFAULT_WEIGHT, the max_tries of Backend::new, and the bodies of can_open / is_available / the fail-open filter with lib/src/{backends,load_balancing}.rs"]
@@ -79,7 +82,9 @@ def translate():
 
 # ---------------------------------------------------------------------------
 
-ADDRS = list(range(7))
+ADDRS = list(range(7))          # 6 is an IPv6 address
+CONN_ADDRS = [0, 1, 2, 3, 4, 5, 7]   # 7 refuses a tcp connect synchronously; cases that connect avoid 6
+ALL_ADDRS = list(range(8))
 IDS = [0, 1, 2]
 STICKY = [0, 1, 2]
 KEYS = [0, 1, 5, 12345, 2 ** 32 + 7, 2 ** 63 + 11, 2 ** 64 - 1]
@@ -98,10 +103,10 @@ def oracle():
     os.makedirs(os.path.join(vlib.BUILD, "run", ID), exist_ok=True)
     q = os.path.join(vlib.BUILD, "run", ID, "oracle_%d.txt" % os.getpid())
     with open(q, "w") as f:
-        for a in ADDRS:
+        for a in ALL_ADDRS:
             f.write("hash %d\n" % a)
         for k in KEYS:
-            for a in ADDRS:
+            for a in ALL_ADDRS:
                 for w in set(WEIGHTS):
                     f.write("score %d %d %d %d\n" % (k, a, 0 if w is None else 1, 0 if w is None else w))
     out = subprocess.run([exe, "--oracle", q], capture_output=True, text=True, timeout=120).stdout
@@ -142,8 +147,10 @@ def with_oracle(ops):
 
 
 class Gen:
-    def __init__(self, rng):
+    def __init__(self, rng, conn=False):
         self.rng = rng
+        self.conn = conn
+        self.addrs = CONN_ADDRS if conn else ADDRS
         self.lists = [[], []]      # per cluster: [(addr, id, handle)]
         self.nh = 0
         self.ops = []
@@ -152,7 +159,7 @@ class Gen:
     def add(self, c, a=None, i=None):
         r = self.rng
         if a is None:
-            a = r.choice(ADDRS if r.random() < 0.3 else ADDRS[:4])
+            a = r.choice(self.addrs if r.random() < 0.3 else self.addrs[:4])
         if i is None:
             i = r.choice(IDS if r.random() < 0.3 else IDS[:1]) if r.random() < 0.7 else a % 3
         w = r.choice(WEIGHTS)
@@ -165,7 +172,7 @@ class Gen:
 
     def remove(self, c):
         r = self.rng
-        a = r.choice([x[0] for x in self.lists[c]]) if self.lists[c] and r.random() < 0.8 else r.choice(ADDRS)
+        a = r.choice([x[0] for x in self.lists[c]]) if self.lists[c] and r.random() < 0.8 else r.choice(self.addrs)
         self.ops.append(["remove", c, a])
         self.lists[c] = [x for x in self.lists[c] if x[0] != a]
 
@@ -183,7 +190,7 @@ class Gen:
 
     def some_addr(self, c):
         r = self.rng
-        return r.choice([x[0] for x in self.lists[c]]) if self.lists[c] and r.random() < 0.85 else r.choice(ADDRS)
+        return r.choice([x[0] for x in self.lists[c]]) if self.lists[c] and r.random() < 0.85 else r.choice(self.addrs)
 
     def select(self, c):
         r = self.rng
@@ -193,6 +200,18 @@ class Gen:
     def step(self, c):
         r = self.rng
         x = r.random()
+        if self.conn and r.random() < 0.22:
+            # the entry points that select and then connect; only with a policy whose pick is not a random draw
+            w = r.choice([1, 1, 2, 3, 5, 8])
+            det = self.kind[c] in ("rr", "least", "hrw", "maglev")
+            y = r.random()
+            if y < 0.4 and self.nh:
+                self.ops.append(["connect", self.handle(), w])
+            elif y < 0.75 and det:
+                self.ops.append(["select_conn", c, w])
+            elif det:
+                self.ops.append(["sticky_conn", c, r.choice(STICKY), w])
+            return
         if x < 0.25:
             self.select(c)
         elif x < 0.33:
@@ -233,7 +252,7 @@ class Gen:
 
 
 def history_case(rng, cid, focus=None):
-    g = Gen(rng)
+    g = Gen(rng, conn=rng.random() < 0.5)
     main = rng.choice([0, 0, 0, 1])
     if rng.random() < 0.85:
         g.policy(main, focus)
